@@ -72,6 +72,7 @@ type kase struct {
 	Place string   `json:"place"`
 	Specs []spec   `json:"specs"`
 	Vals  []outRes `json:"vals"`
+	Trail []outRes `json:"trail"`
 	Res   outRes   `json:"res"`
 	// Obs is set by the harness: "" observes the constant through a variable of its
 	// default type; "arg" passes the constant expression directly as a call argument.
@@ -452,12 +453,30 @@ func (k *kase) renderBlock() (prog, error) {
 			}
 		}
 	}
+	// a second block follows the first (same placement): iota must start again at 0
+	trailer := ""
+	if k.accepted() && len(k.Trail) == 2 {
+		for j, v := range k.Trail {
+			l, w, _ := obsLines(fmt.Sprintf("B%d", j), v.C, true, false, 100+j)
+			body, want = append(body, l...), append(want, w...)
+			nbody, nwant = append(nbody, l...), append(nwant, w...)
+		}
+		trailer = "const (\n" + ind + "B0 = iota\n" + ind + "B1\n" + ind[1:] + ")"
+	}
 	mk := func(body []string) string {
 		if k.Place == "func" {
 			d := strings.TrimRight(decl.String(), "\n") + "\n\t)"
-			return mainOf("", append([]string{d}, body...))
+			pre := []string{d}
+			if trailer != "" {
+				pre = append(pre, trailer)
+			}
+			return mainOf("", append(pre, body...))
 		}
-		return mainOf(decl.String()+")\n\n", body)
+		t := ""
+		if trailer != "" {
+			t = trailer + "\n\n"
+		}
+		return mainOf(decl.String()+")\n\n"+t, body)
 	}
 	p := prog{Src: mk(body), PTypes: ptypes}
 	if k.accepted() {
